@@ -8,8 +8,11 @@
 
 #include <nitro/lang/string.hpp>
 
+#include <iomanip>
 #include <list>
 #include <new>
+#include <set>
+#include <sstream>
 
 static const std::vector<char> ALPHA = { 'a', 'b', ' ' };
 // second alphabet: a std::string may hold zero bytes; nothing may treat them as terminators
@@ -197,6 +200,172 @@ static void check_join(const std::vector<std::string>& el, const std::string& in
     }
 }
 
+// replace_all takes the string by reference and pattern / replacement by const reference: the same object may be passed
+// twice.  The result is a function of the three VALUES at the time of the call.  mode 1: pattern is the string itself,
+// 2: replacement is the string itself, 3: both
+static void check_replace_aliased(const std::string& s, const std::string& other, int mode, std::vector<Fail>& f)
+{
+    std::string got = s;
+    const std::string& pat = mode == 2 ? other : s;
+    const std::string& rep = mode == 1 ? other : s;
+    std::string ctx = std::string("std::string x = ") + mc::jstr(s) + "; replace_all(x, " + (mode == 2 ? mc::jstr(other) : "x") + ", " + (mode == 1 ? mc::jstr(other) : "x") + ")";
+    try
+    {
+        if (mode == 1)
+            nitro::lang::replace_all(got, got, other);
+        else if (mode == 2)
+            nitro::lang::replace_all(got, other, got);
+        else
+            nitro::lang::replace_all(got, got, got);
+    }
+    catch (std::bad_alloc&)
+    {
+        f.push_back({ "replace_all-does-not-return", ctx + " exhausted memory" });
+        return;
+    }
+    catch (std::length_error&)
+    {
+        f.push_back({ "replace_all-does-not-return", ctx + " grew the string without bound" });
+        return;
+    }
+    catch (std::exception& e)
+    {
+        if (!pat.empty())
+            f.push_back({ "replace_all-threw", ctx + ": " + e.what() });
+        return;
+    }
+    if (pat.empty())
+        return;
+    auto want = ref_replace(s, pat, rep);
+    if (got != want)
+        f.push_back({ "replace_all-differs-from-single-pass(aliased-arguments)", ctx + " leaves x = " + mc::jstr(got) + " expected " + mc::jstr(want) });
+}
+
+// ---- join over element types other than std::string: the element's text is its stream representation (each element
+// on its own: nothing an element does to a stream may leak into the next element or the next call)
+struct HexLeaker
+{
+    int v;
+};
+static std::ostream& operator<<(std::ostream& o, const HexLeaker& h)
+{
+    return o << "0x" << std::hex << h.v; // leaves the stream in hex mode
+}
+struct Fixer
+{
+    double v;
+};
+static std::ostream& operator<<(std::ostream& o, const Fixer& h)
+{
+    return o << std::fixed << std::setprecision(1) << std::boolalpha << h.v;
+}
+struct Row
+{
+    std::vector<std::string> cells;
+};
+static std::ostream& operator<<(std::ostream& o, const Row& r)
+{
+    return o << nitro::lang::join(r.cells, ","); // an element whose text is itself produced by join
+}
+template <typename It>
+static std::string ref_join_streamed(It b, It e, const std::string& infix)
+{
+    std::vector<std::string> el;
+    for (; b != e; ++b)
+    {
+        std::ostringstream o; // a fresh stream per element
+        o << *b;
+        el.push_back(o.str());
+    }
+    return ref_join(el, infix);
+}
+const int TYPED_KINDS = 11;
+static const char* typed_name(int k)
+{
+    static const char* n[] = { "vector<int>", "vector<char>", "list<unsigned char>", "set<signed char>", "vector<double>", "vector<const char*>", "vector<HexLeaker>",
+                               "vector<Row>", "vector<bool>", "vector<Fixer>", "vector<string>" };
+    return n[k];
+}
+// returns {got, want}
+static std::pair<std::string, std::string> typed_join(int kind, const std::string& infix)
+{
+    switch (kind)
+    {
+    case 0:
+    {
+        std::vector<int> v = { 10, 255, 4096, -3, 0 };
+        return { nitro::lang::join(v.begin(), v.end(), infix), "10" + infix + "255" + infix + "4096" + infix + "-3" + infix + "0" };
+    }
+    case 1:
+    {
+        std::vector<char> v = { 'a', 'b', ' ', 'c' };
+        return { nitro::lang::join(v.begin(), v.end(), infix), "a" + infix + "b" + infix + " " + infix + "c" };
+    }
+    case 2:
+    {
+        std::list<unsigned char> v = { 'x', 'y' };
+        return { nitro::lang::join(v.begin(), v.end(), infix), "x" + infix + "y" };
+    }
+    case 3:
+    {
+        std::set<signed char> v = { 'q', 'p' };
+        return { nitro::lang::join(v.begin(), v.end(), infix), "p" + infix + "q" };
+    }
+    case 4:
+    {
+        std::vector<double> v = { 0.5, 2, 0.123456 };
+        return { nitro::lang::join(v.begin(), v.end(), infix), "0.5" + infix + "2" + infix + "0.123456" };
+    }
+    case 5:
+    {
+        std::vector<const char*> v = { "p", "", "q " };
+        return { nitro::lang::join(v.begin(), v.end(), infix), "p" + infix + "q " };
+    }
+    case 6:
+    {
+        std::vector<HexLeaker> v = { { 255 }, { 16 } };
+        return { nitro::lang::join(v.begin(), v.end(), infix), "0xff" + infix + "0x10" };
+    }
+    case 7:
+    {
+        std::vector<Row> v = { { { "a", "b", "c" } }, { {} }, { { "d", "", "e" } } };
+        return { nitro::lang::join(v.begin(), v.end(), infix), "a,b,c" + infix + "d,e" };
+    }
+    case 8:
+    {
+        std::vector<bool> v = { true, false };
+        return { nitro::lang::join(v.begin(), v.end(), infix), "1" + infix + "0" };
+    }
+    case 9:
+    {
+        std::vector<Fixer> v = { { 2.25 }, { 0.5 } };
+        return { nitro::lang::join(v.begin(), v.end(), infix), ref_join_streamed(v.begin(), v.end(), infix) };
+    }
+    default:
+    {
+        std::vector<std::string> v = { "s", "", "t " };
+        return { nitro::lang::join(v.begin(), v.end(), infix), "s" + infix + "t " };
+    }
+    }
+}
+// a history of join calls on one thread: every call is judged against its own reference
+static void check_typed_history(const std::vector<int>& kinds, std::vector<Fail>& f)
+{
+    std::string done;
+    for (size_t i = 0; i < kinds.size(); i++)
+    {
+        const std::string infix = i % 2 ? ";" : "-";
+        auto r = typed_join(kinds[i], infix);
+        done += std::string(done.empty() ? "" : ", ") + typed_name(kinds[i]);
+        if (r.first != r.second)
+        {
+            f.push_back({ kinds.size() == 1 ? "join-element-text-is-not-its-stream-representation" : "join-depends-on-earlier-joins",
+                          "join calls in this order: " + done + "; the last one gave " + mc::jstr(r.first) + " expected " + mc::jstr(r.second) });
+            return;
+        }
+    }
+}
+
 static std::string shape(const std::string& s)
 {
     // class of a string for signatures: length class + whether it contains blanks
@@ -227,6 +396,15 @@ int main(int argc, char** argv)
         }
         else if (fn == "starts_with")
             check_starts(w.s("s"), w.s("p"), f);
+        else if (fn == "replace_all(aliased)")
+            check_replace_aliased(w.s("s"), w.s("other"), static_cast<int>(w.n("mode")), f);
+        else if (fn == "join(typed)")
+        {
+            std::vector<int> ks;
+            for (auto& v : w.at("kinds").arr)
+                ks.push_back(static_cast<int>(v.num));
+            check_typed_history(ks, f);
+        }
         else
             check_join(w.strings("elements"), w.s("infix"), f);
         printf("replay C17 %s\n", fn.c_str());
@@ -326,6 +504,61 @@ int main(int argc, char** argv)
                 int p = n - 1;
                 while (p >= 0 && ++ix[p] == elems.size())
                     ix[p--] = 0;
+                if (p < 0)
+                    break;
+            }
+        }
+        // replace_all with the string itself as pattern and / or replacement (every call a case of its own: a call that
+        // does not return is attributed exactly)
+        for (auto& str : strings)
+        {
+            if (str.size() > 4)
+                continue;
+            std::vector<std::pair<std::string, int>> calls = { { "", 3 } };
+            for (auto& o : small)
+            {
+                calls.push_back({ o, 1 });
+                calls.push_back({ o, 2 });
+            }
+            for (auto& c : calls)
+            {
+                long idx = ctx.next;
+                ctx.each([&] { return mc::Desc{ mc::J().s("fn", "replace_all(aliased)").s("s", str).s("other", c.first).n("mode", c.second).str(), "replace_all(aliased):mode" + std::to_string(c.second) + ":" + shape(str) }; },
+                         [&](mc::Report& rep) {
+                             std::vector<Fail> f;
+                             check_replace_aliased(str, c.first, c.second, f);
+                             rep.count("executions");
+                             rep.transitions.insert(mc::hash("alias" + str + "\x1f" + c.first + std::to_string(c.second)));
+                             for (auto& x : f)
+                                 rep.violation(x.clause, "C17:" + x.clause + ":mode" + std::to_string(c.second) + ":" + shape(str),
+                                               mc::J().s("fn", "replace_all(aliased)").s("s", str).s("other", c.first).n("mode", c.second).str(), x.detail, idx);
+                         });
+            }
+        }
+        // join over other element types: every history of <= 3 calls over 11 element types
+        for (int len = 1; len <= 3; len++)
+        {
+            std::vector<int> ks(len, 0);
+            for (;;)
+            {
+                long idx = ctx.next;
+                std::string kj = "[";
+                for (size_t i = 0; i < ks.size(); i++)
+                    kj += (i ? "," : "") + std::to_string(ks[i]);
+                kj += "]";
+                ctx.each([&] { return mc::Desc{ mc::J().s("fn", "join(typed)").raw("kinds", kj).str(), "join(typed)" }; },
+                         [&](mc::Report& rep) {
+                             std::vector<Fail> f;
+                             check_typed_history(ks, f);
+                             rep.count("executions", ks.size());
+                             rep.transitions.insert(mc::hash("typed" + kj));
+                             rep.nontrivial.insert(mc::hash("typed" + kj));
+                             for (auto& x : f)
+                                 rep.violation(x.clause, "C17:" + x.clause + ":" + typed_name(ks.back()), mc::J().s("fn", "join(typed)").raw("kinds", kj).str(), x.detail, idx);
+                         });
+                int p = len - 1;
+                while (p >= 0 && ++ks[p] == TYPED_KINDS)
+                    ks[p--] = 0;
                 if (p < 0)
                     break;
             }
